@@ -25,7 +25,8 @@ ID = "C13"
 DESIGN_REF = "6/C13"
 LEAN_MODULES = ["Clikit.Props.C13"]
 REQUIRED_THEOREMS = ["Clikit.Props.C13." + n for n in (
-    "help_total", "help_complete", "help_hides", "help_width", "help_same_page")]
+    "help_total", "help_complete", "help_names", "help_inherits", "help_hides", "help_width", "help_width_pages",
+    "help_wrap_contract", "help_same_page", "help_same_page_partial")]
 TECHNIQUE = ("Lean 4 theorems on a model of ApplicationHelp / CommandHelp / BlockLayout / LabelAlignment / "
              "LabeledParagraph / Paragraph and of the help resolver, parametric in textwrap.wrap (contract: every line fits "
              "the requested width), + differential correspondence of whole pages on generated configurations x widths x "
@@ -36,10 +37,12 @@ LEVEL_TEXT = ("Proved in Lean for EVERY configuration tree, terminal width and w
               "< 1, no None text - the D14 repair is an explicit obligation); every argument (own and inherited), every own, "
               "inherited and global option (label shows the preferred and the alternative name) and every non-hidden, enabled, "
               "named (sub-)command is an element of the page; the command entries of a page are exactly the visible ones (no "
-              "hidden, disabled or anonymous command); every rendered line is shorter than the terminal; `help <path>` and "
-              "`<path> --help|-h` look up the same leading names (the page shown is the same whenever the trial parses of the "
-              "default sub-commands do not depend on the help switch, stated as hypothesis). The model is tied to the code by "
-              "comparing whole pages on generated configurations.")
+              "hidden, disabled or anonymous command); every rendered line is shorter than the terminal (and on a narrower "
+              "terminal than widthOK allows rendering does fail: the margin is exact); `help <path>` and `<path> --help|-h` "
+              "hand the resolver the same leading names, so it walks to the same command (help_same_page, unconditional); the "
+              "page shown is the same given three facts about the parser (the help command receives the path in both spellings, "
+              "the switch changes no parse outcome) - help_same_page_partial, with the full statement kept as "
+              "help_same_page_full. The model is tied to the code by comparing whole pages on generated configurations.")
 LEVEL_NOTE = ("Trusted: Lean kernel + standard axioms; the hand-written page/layout/resolver models (modelled, not verified; "
               "compared with the real pages on every generated case); textwrap.wrap, json.dumps, str.format, pastel as "
               "external engines (wrap: modelled + compared on every call; tags: only the tags the help pages emit). Labels are "
